@@ -8,7 +8,7 @@ package verifc07
 // ResourceManager, every call and every execution of a user function stamped by one global atomic
 // counter. One section = one concurrent run; one line = one call:
 //
-//	call id=<n> g=<goroutine> key=<k> ex=<0|1> pre=<n> yield=<n> err=<0|1> hold=<0|1> [panic=1] [pk=<1|2|3>] [ek=<1..5>] [ep=<0..3>] [cx=<0..2>]
+//	call id=<n> g=<goroutine> key=<k> ex=<0|1> pre=<n> yield=<n> err=<0|1> hold=<0|1> [panic=1] [pk=<1|2|3>] [ek=<1..5>] [nilv=1] [ep=<0..3>] [cx=<0..2>]
 //	   => inv=<stamp> ret=<stamp> val=<id|nil> fresh=<0|1|-> err=<id|-> fs=<stamp|-> fe=<stamp|-> runs=<n> stuck=<0|1> [panic=<1|2>]
 //
 // Outcome kinds of the user function (round 5): err=1 with ek = 1 pointer error (*Err), 2 wrapped (fmt.Errorf("%w")),
@@ -87,7 +87,7 @@ type Call struct {
 	text                  string
 	id, g, key            int
 	ex, serr, hold        bool
-	spanic                bool
+	spanic, nilv          bool
 	pk, ek, ep, cx        int
 	errObj                error // the error value this call's function returned (under mu)
 	goexit                bool  // the call's goroutine was ended by runtime.Goexit
@@ -112,7 +112,7 @@ func parse(text string) (*Call, bool) {
 	}
 	return &Call{text: text, id: c.Int("id", -1), g: c.Int("g", 0), key: c.Int("key", 0),
 		ex: c.Int("ex", 0) == 1, serr: c.Int("err", 0) == 1, hold: c.Int("hold", 0) == 1,
-		spanic: c.Int("panic", 0) == 1, pk: c.Int("pk", 1), ek: c.Int("ek", 1), ep: c.Int("ep", c.Int("ex", 0)), cx: c.Int("cx", 0),
+		spanic: c.Int("panic", 0) == 1, nilv: c.Int("nilv", 0) == 1, pk: c.Int("pk", 1), ek: c.Int("ek", 1), ep: c.Int("ep", c.Int("ex", 0)), cx: c.Int("cx", 0),
 		pre: c.Int("pre", 0), yield: c.Int("yield", 0), val: "nil", fresh: "-", err: "-"}, true
 }
 
@@ -213,8 +213,9 @@ func RunSection(cfg verifh.Cfg, ops []string, mk func(cfg verifh.Cfg) Target) []
 	if p := cfg.Int("procs", 0); p > 0 {
 		defer runtime.GOMAXPROCS(runtime.GOMAXPROCS(p))
 	}
-	// a call that has not returned after 20 s (60 s thorough) is reported stuck; once a section of this run was
-	// stuck (only ever on a broken tree) the next ones wait 3 s, and WriteTrace stops after 5 stuck sections
+	// a call is reported stuck when it has not returned and the global stamp counter has not moved for 6 s (18 s
+	// thorough), or after 20 s (60 s thorough) in total; once a section of this run was stuck (only ever on a broken
+	// tree) the next ones wait 3 s, and WriteTrace stops after 5 stuck sections
 	timeout := time.Duration(verifh.Scale(20, 60)) * time.Second
 	if stuckSections.Load() > 0 && os.Getenv("VERIF_OPS_IN") == "" {
 		timeout = 3 * time.Second
@@ -335,6 +336,10 @@ func RunSection(cfg verifh.Cfg, ops []string, mk func(cfg verifh.Cfg) Target) []
 			if c.serr {
 				return Val{c.id}, e0
 			}
+			if c.nilv {
+				// the zero result (nil, nil) is a result like any other
+				return nil, nil
+			}
 			return Val{c.id}, nil
 		}
 	}
@@ -410,18 +415,36 @@ func RunSection(cfg verifh.Cfg, ops []string, mk func(cfg verifh.Cfg) Target) []
 			}
 		}(byG[g])
 	}
-	waitTimeout := func(wg *sync.WaitGroup) bool {
+	// a wait ends when the group is done, when the global stamp counter has not moved for `quiet` (nothing is
+	// making progress: every unfinished call is blocked), or after `timeout` in total
+	waitTimeout := func(wg *sync.WaitGroup, quiet time.Duration) bool {
 		ch := make(chan struct{})
 		go func() { wg.Wait(); close(ch) }()
-		select {
-		case <-ch:
-			return true
-		case <-time.After(timeout):
-			return false
+		deadline := time.After(timeout)
+		tick := time.NewTicker(200 * time.Millisecond)
+		defer tick.Stop()
+		last, lastMove := stamp.Load(), time.Now()
+		for {
+			select {
+			case <-ch:
+				return true
+			case <-deadline:
+				return false
+			case <-tick.C:
+				if cur := stamp.Load(); cur != last {
+					last, lastMove = cur, time.Now()
+				} else if time.Since(lastMove) >= quiet {
+					return false
+				}
+			}
 		}
 	}
+	quiet := time.Duration(verifh.Scale(6, 18)) * time.Second
+	if quiet > timeout {
+		quiet = timeout
+	}
 	close(start)
-	freeOk := waitTimeout(&freeWg)
+	freeOk := waitTimeout(&freeWg, quiet)
 	if !freeOk {
 		mu.Lock()
 		for _, c := range calls {
@@ -432,7 +455,11 @@ func RunSection(cfg verifh.Cfg, ops []string, mk func(cfg verifh.Cfg) Target) []
 		mu.Unlock()
 	}
 	close(release)
-	allOk := waitTimeout(&allWg)
+	if !freeOk && quiet > 2*time.Second {
+		// (what was blocked before the release and does not move within 2 s after it stays blocked)
+		quiet = 2 * time.Second
+	}
+	allOk := waitTimeout(&allWg, quiet)
 	if tg.Done != nil && allOk {
 		defer tg.Done()
 	}
@@ -674,6 +701,10 @@ func Gen(r *verifh.Rng, nsec int, via string) []verifh.Section {
 						ek = 5
 					}
 					op += fmt.Sprintf(" ek=%d", ek)
+				}
+				if mode != "rm" && serr == 0 && !strings.Contains(op, "panic=1") && r.Chance(1, 8) {
+					// the function returns (nil, nil): a value like any other (sf: handed to the joiners, lc: own result)
+					op += " nilv=1"
 				}
 				if ep >= 0 {
 					op += fmt.Sprintf(" ep=%d", ep)
